@@ -8,12 +8,15 @@ Output line:  model-answer \t oracle-verdict
 -/
 import IsoVerif.Model.Util
 import IsoVerif.Model.Core.OpsC09
+import IsoVerif.Model.Core.Refetch
+import IsoVerif.Model.Core.OpsC10
 
 open IsoVerif IsoVerif.Util IsoVerif.Core IsoVerif.Ops IsoVerif.GqlValid
 
 structure St where
   schema : Option VSchema := none
   pointers : List (Str × Str × Str) := []
+  graph : Option Graph := none
 
 def splitArrow (fs : List String) : List String × List String :=
   (fs.takeWhile (· != "=>"), (fs.dropWhile (· != "=>")).drop 1)
@@ -42,6 +45,25 @@ def step (st : St) (fs : List String) : St × String :=
       | none => ({}, "-\tbad:machinery:schema-unparsed")
     | _ => ({}, "-\tok")
   | "c09" :: _ => (st, c09Line st.schema impl)
+  | "casegraph" :: _ =>
+    match impl with
+    | [w] =>
+      if w.startsWith "e:" then ({ st with graph := none }, "-\tbad:artifacts-do-not-evaluate")
+      else match parseGraph w with
+        | some g => ({ st with graph := some g }, "-\tok")
+        | none => ({ st with graph := none }, "-\tbad:machinery:graph-unparsed")
+    | _ => ({ st with graph := none }, "-\tbad:machinery:graph-fields")
+  | ["c25", entry] => (st, c25Line st.graph entry)
+  | "c10" :: _ =>
+    let possible : Str → List Str := fun t =>
+      match st.schema with
+      | some sch => (match sch.possibleTypes t with | [] => [t] | ps => ps)
+      | none => [t]
+    let isAbstract : Str → Bool := fun t =>
+      match st.schema with
+      | some sch => (match sch.get? t with | some (.interface _) | some (.union _) => true | _ => false)
+      | none => false
+    (st, c10Line st.graph (pointerReaders possible st.pointers) isAbstract req impl)
   | _ => (st, "?\tbad:machinery:unknown-op")
 
 def main : IO Unit := runDriverS step {}
